@@ -107,6 +107,10 @@ pub trait Check: Sync {
   fn watchdog_s(&self) -> u64 {
     20
   }
+  /// Checks that need the fresh-process oracle return the function a pristine grandchild evaluates.
+  fn zygote_eval(&self) -> Option<fn(&Value) -> Value> {
+    None
+  }
 }
 
 // ------------------------------------------------------------------------------------------------
@@ -277,6 +281,9 @@ pub fn child_runs(
   sample_below: u64,
 ) -> ! {
   install_panic_hook();
+  if let Some(f) = check.zygote_eval() {
+    crate::zygote::start(f);
+  }
   let t0 = Instant::now();
   let watchdog = check.watchdog_s() * 1000;
   let h = std::thread::Builder::new()
@@ -353,6 +360,9 @@ pub fn child_runs(
 /// Entry of `sim exec <check> <worldfile> <watchdog_s>`: executes one explicit world.
 pub fn child_exec(check: &'static dyn Check, world: Value, watchdog_s: u64) -> ! {
   install_panic_hook();
+  if let Some(f) = check.zygote_eval() {
+    crate::zygote::start(f);
+  }
   let t0 = Instant::now();
   let h = std::thread::Builder::new()
     .stack_size(STACK_BYTES)
